@@ -246,6 +246,8 @@ func (g *c15Gen) trees(t byte, n int) []*ref.Expr {
 		switch t {
 		case 'B':
 			out = append(out, ref.Not(ref.Call("is_int", ref.Value())))
+			// a run of `!`: every one negates what follows it
+			out = append(out, ref.Not(ref.Not(ref.Call("is_int", ref.Value()))), ref.Not(ref.Not(ref.Not(ref.Bl(true)))))
 		case 'T':
 			out = append(out, ref.Call("upper", ref.Key()), ref.Idx(ref.Call("split", ref.Value(), ref.S(",")), ref.N(0)))
 		case 'N':
@@ -324,6 +326,9 @@ func (g *c15Gen) trees(t byte, n int) []*ref.Expr {
 	case 'B':
 		for _, x := range g.treesNoUnary('B', n) {
 			out = append(out, ref.Not(x))
+		}
+		for _, x := range g.treesNoUnary('B', n) {
+			out = append(out, ref.Not(ref.Not(x)))
 		}
 	case 'N':
 		for _, x := range g.treesNoUnary('T', n) {
